@@ -52,7 +52,8 @@ def check(model, tier):
     sqlplace.r_inner_calculation_name(ctx, "R02.11")
     sqlemit.r_select_list_order(ctx, "R02.12")
     sqlemit.r_identifier_agreement(ctx, "R02.14")
-    sqlplace.r08_3_order_by_scope(ctx, rule="R02.16")  # an accepted tree must compile: refusing it is no SELECT at all
+    sqlplace.r08_3_order_by_scope(ctx, rule="R02.16")
+    sqlplace.r11_3_emission(ctx, rule="R02.18")  # what reaches the SELECT list / ORDER BY / DISTINCT of the emitted query  # an accepted tree must compile: refusing it is no SELECT at all
     sqlemit.r_anonymous_binds(ctx, "R02.15")
     sqlemit.r_flattened_predicate(ctx, "R02.17")
     from ..rules import rangesql as _rangesql
